@@ -4,6 +4,7 @@ use std::marker::PhantomData;
 use heck::ToSnakeCase;
 use proc_macro2::{Span, TokenStream};
 use quote::{quote, ToTokens, TokenStreamExt};
+use syn::ext::IdentExt;
 use syn::{Error, Fields, FieldsNamed, Ident, Variant};
 
 use super::{attr::IdenAttr, error::ErrorMsg};
@@ -138,7 +139,7 @@ where
         if self.ident == "Table" {
             self.table_name.to_owned()
         } else {
-            self.ident.to_string().to_snake_case()
+            self.ident.unraw().to_string().to_snake_case()
         }
     }
 
